@@ -51,6 +51,31 @@ CHECKS = {
               "sweep of widths, one subprocess each.", "DESIGN.md 8 C18", "Bounded: 8 widths (15 thorough) x 50 IRs x 7 kinds. Known finding W-numpydoc."),
 }
 
+CHECKS.update({
+    "C09": _c("other", HYBRID + "Deductive: _conform_filename effect-log contract (create / append / replace / no-op), RewriteAtQuery.generic_visit, the pluralise / "
+              "namespace mapping (evaluation), get_function_type. Bounded: generated projects (truth kind x interface x function-vs-method x pre-state pairs x "
+              "surrounding statements) through ground_truth; every target is re-read with an independent ast walk and doctrans' parser.",
+              "DESIGN.md 8 C09", "Bounded: 294 projects (quick). Known findings Y-stale-fn, Y-method-create, Y-find-def-before."),
+    "C10": _c("other", HYBRID + "Deductive: on every path of _conform_filename the returned flag equals 'one emit.file write happened' and only the named file is written; "
+              "emit.file ordering contract. Bounded: byte snapshots around a first and a second sync, truth file bytes, report vs bytes.",
+              "DESIGN.md 8 C10", "Bounded: histories of length 2. Known findings Z-truth-class, Z-report-class, Z-reformat, Z-method-again."),
+    "C11": _c("other", HYBRID + "Deductive: RewriteAtQuery.generic_visit replaces exactly the node at the location, once; emit.file append contract. Bounded: masked-AST "
+              "equality of every target module before / after, with and without a trailing newline.", "DESIGN.md 8 C11",
+              "Bounded: generated target modules. Known finding P-method-surround."),
+    "C14": _c("other", HYBRID + "Deductive: sync_properties effect contract (reads only, one write to the output after every pair), RewriteAtQuery.generic_visit. Bounded: "
+              "generated module pair x (input location, output location) x wrap / eval / 1..3 pairs / unresolved addresses.", "DESIGN.md 8 C14",
+              "Bounded: one module pair, two output layouts. Known finding F9-c14."),
+    "C15": _c("other", "find_in_ast / annotate_ancestry need an inductive invariant over tree paths (out of reach, see DESIGN 12): decided by the BOUNDED small-scope exhaustive "
+              "check against an independent resolver; deductive only for RewriteAtQuery.generic_visit.", "DESIGN.md 8 C15",
+              "Bounded: modules of depth <= 3, <= 3 statements per scope, shared and unique names (138k lookups). Known finding F9 delimits a large broken region."),
+    "C19": _c("other", HYBRID + "Deductive: main reaches gen only when the output does not exist (guard obligations), set_value. Bounded: generated importable input modules x "
+              "output type x name template x prepend / imports, one process each.", "DESIGN.md 8 C19",
+              "Bounded: <= 4 mapping entries. Known findings G-function, G-annotated, G-comment, G-globals."),
+    "C20": _c("other", HYBRID + "Deductive: validation dominance in main (guard obligations), emit.file ordering contract, _conform_filename effect contract, exceptional "
+              "postcondition of emit.file over the I/O model. Bounded: rejected invocation classes (snapshot + exit status), accepted kind subsets, OSError injected "
+              "before open / mid-write.", "DESIGN.md 8 C20", "The I/O model: open truncates, write may be partial; rename / power loss not modelled. Known finding F12."),
+})
+
 NOT_APPLICABLE = {}
 for _p in ALL:
     if _p not in CHECKS:
